@@ -136,9 +136,13 @@ def run(eng, tier):
             item = k[1] if entry_form else k
             okk = item[0] == 'v' and item[1][0] == 'iternext' and item[1][1][0] == 'iter' and item[1][1][1][0] == 'collect'
             src = item[1][1][1][1] if okk else None
-            okk = okk and src[0] == 'call' and src[1].endswith('filter_map') and src[2][0][0] == 'srange' and src[2][0][1] == 'bid' and src[2][1][0] == 'lambda'
+            # Iterator::flatten over the range's Result items keeps the payload of every Ok and skips every Err: the same filter as |kv| kv.ok()
+            flat = bool(okk and src[0] == 'call' and src[1].endswith('::flatten') and 'Iterator' in src[1] and len(src[2]) == 1 and src[2][0][0] == 'srange' and src[2][0][1] == 'bid')
+            okk = okk and (flat or (src[0] == 'call' and src[1].endswith('filter_map') and src[2][0][0] == 'srange' and src[2][0][1] == 'bid' and src[2][1][0] == 'lambda'))
             eng.ob(okk, PROP, 'keys', 'from-range', 'converted bid key %s does not come from the filtered range over the "bid" namespace' % K(k)[:160], where=w['site'])
-            if okk:
+            if okk and flat:
+                eng.ob(entry_form, PROP, 'keys', 'skip-undecodable', 'a flattened range yields (key, record) entries; the key must be the entry\'s first component', where=w['site'])
+            elif okk:
                 lam = src[2][1]; b = ('bound', lam[1], 0)
                 outs = {tuple(f for f in facts): ret for facts, ret in lam[3]}
                 payload = V(b, 'Ok', '0') if entry_form else F(V(b, 'Ok'), '0')
@@ -156,12 +160,13 @@ def run(eng, tier):
             OLD = d.get('id')[1] if d.get('id') and d['id'][0] == 'f' else None
             if entry_form:
                 # the record of the very entry whose key is used (range yields (key, record stored under it))
-                okold = okk and OLD == F(item, '1')
+                # ... or the record reloaded under that entry's key
+                okold = okk and (OLD == F(item, '1') or (OLD is not None and OLD[0] == 'stored' and OLD[1] == 'bid' and OLD[2] == k))
             else:
                 okold = OLD is not None and OLD[0] == 'stored' and OLD[1] == 'bid' and OLD[2] == k
             eng.ob(okold, PROP, 'conversion', 'same-key', 'the converted record is not derived from the old record stored under the same key', where=w['site'])
             if not okold: continue
-            if not entry_form:
+            if not entry_form or OLD != F(item, '1'):
                 ld = [e for e in reads if e[3] == 'load' and eng.N['migrate'](e[2]) == k]
                 eng.ob(bool(ld) and all(OLD_T is not None and OLD_T in e[4][5] for e in ld), PROP, 'conversion', 'loaded-as-old', 'the record to convert is not loaded as the old format', where=w['site'])
             for fld in ('base', 'fee', 'id', 'owner', 'price', 'quote'):
